@@ -761,3 +761,50 @@ pub fn sample_strategy<T: std::fmt::Debug>(s: &BoxedStrategy<T>, seed: u64, n: u
     let mut runner = TestRunner::new(PtConfig { rng_seed: RngSeed::Fixed(seed), failure_persistence: None, ..PtConfig::default() });
     (0..n).map(|_| s.new_tree(&mut runner).unwrap().current()).collect()
 }
+
+// ------------------------------------------------------------------------------------------
+// coverage-guided fuzzing (libFuzzer): the bytes of the fuzzer drive the property's own proptest strategy
+// through proptest's pass-through RNG, so that generator, oracle and known-finding handling are shared
+// with the proptest campaigns.
+
+/// Outcome of one fuzz input.
+pub enum FuzzOutcome {
+    /// the strategy rejected the bytes (no case was generated)
+    NoCase,
+    Held { nontrivial: bool },
+    Known(String),
+    /// a violation which is not a listed finding; the replay file has been written
+    Violation(PathBuf, Failure),
+}
+
+pub fn fuzz_one<P: Property>(prop: &P, known: &[KnownRecord], data: &[u8]) -> FuzzOutcome {
+    use proptest::test_runner::{RngAlgorithm, TestRng};
+    if data.is_empty() {
+        return FuzzOutcome::NoCase;
+    }
+    let cfg = PtConfig { failure_persistence: None, ..PtConfig::default() };
+    let mut runner = TestRunner::new_with_rng(cfg, TestRng::from_seed(RngAlgorithm::PassThrough, data));
+    let strat = prop.strategy(Tier::Thorough);
+    let Ok(tree) = strat.new_tree(&mut runner) else {
+        return FuzzOutcome::NoCase;
+    };
+    let case = tree.current();
+    match judge(prop, &case) {
+        Ok(o) => FuzzOutcome::Held { nontrivial: o.nontrivial.is_some() },
+        Err(f) => {
+            if let Some(i) = match_known(prop, known, &case, &f) {
+                return FuzzOutcome::Known(known[i].id.clone());
+            }
+            if f.sig.starts_with("panic:") && !prop.panics_are_violations() {
+                return FuzzOutcome::Held { nontrivial: false };
+            }
+            let dir = verif_root().join("replays").join(prop.id());
+            let _ = std::fs::create_dir_all(&dir);
+            let case_json = serde_json::to_value(&case).unwrap();
+            let path = dir.join(format!("fuzz-{:016x}.json", fnv(&case_json.to_string())));
+            let doc = json!({"property": prop.id(), "case": case_json, "failure": {"sig": f.sig, "msg": f.msg}, "found_by": "libFuzzer"});
+            let _ = std::fs::write(&path, serde_json::to_string_pretty(&doc).unwrap());
+            FuzzOutcome::Violation(path, f)
+        }
+    }
+}
